@@ -80,7 +80,6 @@ func diffClass(gc, sc outcome) string {
 
 // priority of features in a signature: the most specific first.
 var featOrder = []string{
-	"multipkg", "dotimport", "initorder", "init",
 	"goroutine", "select", "chan-range", "chan", "close",
 	"repanic", "defer-panic", "recover", "panic", "defer", "named-result",
 	"goto", "label", "fallthrough", "typeswitch", "assert", "switch",
@@ -93,6 +92,8 @@ var featOrder = []string{
 	"tuple-assign", "swap", "opassign", "incdec", "shadow",
 	"conv-string", "conv", "iota", "const", "float", "string", "rune", "shift", "div", "int",
 	"for", "if", "call",
+	// what surrounds the statements comes last: it names the signature only when nothing else is left
+	"dotimport", "multipkg", "initorder", "init",
 }
 
 func signature(class string, p *Prog) string {
@@ -142,7 +143,7 @@ func init() {
 		if n <= 0 {
 			return
 		}
-		deadline := start.Add(30 * time.Second)
+		deadline := start.Add(26 * time.Second)
 		if c.Thorough() {
 			deadline = start.Add(9 * time.Minute)
 		}
